@@ -34,6 +34,11 @@ type DriverCfg struct {
 	Checksums  bool // supply (right and wrong) checksums
 	BigBodies  bool // multi-MiB bodies
 	BodySizes  []int
+	// SharedNamespace: other drivers own other buckets of the same storage;
+	// ListBuckets is compared for this driver's buckets only.
+	SharedNamespace bool
+	// NoVersionIDs makes the generator never name an explicit version id.
+	NoVersionIDs bool
 	// BodyPool, when set, makes writes draw their body from this small shared
 	// pool (identical content across keys and clients => content dedup).
 	BodyPool [][]byte
@@ -322,6 +327,9 @@ func (d *Driver) pickExistingBucket(g *sim.Tape) string {
 }
 
 func (d *Driver) pickVersion(g *sim.Tape, bucket, key string) *string {
+	if d.Cfg.NoVersionIDs {
+		return nil
+	}
 	b := d.M.Buckets[bucket]
 	if b == nil {
 		return nil
@@ -532,7 +540,7 @@ func (d *Driver) checkBuckets() *Violation {
 	var got []string
 	for _, b := range bs {
 		// other clients may own other buckets: only this driver's buckets are compared
-		if indexOfOK(d.Cfg.Buckets, b.Name.String()) {
+		if !d.Cfg.SharedNamespace || indexOfOK(d.Cfg.Buckets, b.Name.String()) {
 			got = append(got, b.Name.String())
 		}
 	}
